@@ -114,6 +114,63 @@ class DispBase(BaseException):
     pass
 
 
+class _Frozen:
+    """mixin: an exception class that refuses attribute assignment once built (what `@dataclass(frozen=True)` or an immutable
+    base gives); Python itself raises, chains and prints such exceptions without trouble (it does not go through __setattr__)"""
+
+    def __setattr__(self, name: str, value: Any) -> None:
+        raise AttributeError(f"cannot assign to field {name!r}")  # dataclasses.FrozenInstanceError is an AttributeError
+
+    def __delattr__(self, name: str) -> None:
+        raise AttributeError(f"cannot delete field {name!r}")
+
+
+class _ValueEq:
+    """mixin: value equality - every instance of the class equals every other one and hashes alike (a frozen dataclass without fields)"""
+
+    def __eq__(self, other: object) -> bool:
+        return type(other) is type(self)
+
+    def __hash__(self) -> int:
+        return 7
+
+
+class _Unhashable:
+    """mixin: __eq__ without __hash__ (every plain `@dataclass class E(Exception)`)"""
+
+    def __eq__(self, other: object) -> bool:
+        return type(other) is type(self)
+
+    __hash__ = None  # type: ignore[assignment]
+
+
+class DispErrFrozen(_Frozen, DispErr):
+    pass
+
+
+class DispErrValueEq(_ValueEq, DispErr):
+    pass
+
+
+class DispErrUnhashable(_Unhashable, DispErr):
+    pass
+
+
+class BodyExcFrozen(_Frozen, BodyExc):
+    pass
+
+
+class BodyExcUnhashable(_Unhashable, BodyExc):
+    pass
+
+
+class BodyExcValueEq(_ValueEq, BodyExc):
+    pass
+
+
+DISP_ERR_KINDS = {"plain": DispErr, "frozen": DispErrFrozen, "valueeq": DispErrValueEq, "unhashable": DispErrUnhashable}
+
+
 class _Repr:
     def __init__(self, text: str) -> None:
         self.text = text
@@ -196,10 +253,30 @@ class Disposable:
 
             self._held = ctx.updated(family.make("R1", 770 + self.idx), family.make("D2", 780 + self.idx))
             self._held.__enter__()
+        if self.spec.get("enter_block"):
+            # a resource initialising itself under a state update of its own (properly nested, left again before __aenter__ returns):
+            # resources of one scope are initialised concurrently and must not see each other's blocks
+            from haiway import ctx
+
+            def view() -> Any:
+                return (_outcome(lambda: ctx.state(family.R1)), _outcome(lambda: ctx.state(family.D2)))
+
+            rec: dict[str, Any] = {"owner": self.owner, "idx": self.idx, "own": 600 + self.idx, "before": view(), "inside": []}
+            with ctx.updated(family.make("R1", 600 + self.idx), family.make("D2", 600 + self.idx)):
+                rec["inside"].append(view())
+                await asyncio.sleep(0)
+                rec["inside"].append(view())
+                with ctx.scope(f"{self.owner}.d{self.idx}.init", family.make("R1", 650 + self.idx)):
+                    await asyncio.sleep(0)
+                rec["inside"].append(view())
+            rec["after"] = view()
+            await asyncio.sleep(0)
+            rec["later"] = view()
+            W.disposable_views.append(rec)
         if how.startswith("gate"):
             await W.sched.gate(f"{self.owner}.d{self.idx}.enter")
         if how.endswith("raise"):
-            self.enter_err = DispErr(f"{self.owner}.d{self.idx}.enter")
+            self.enter_err = DISP_ERR_KINDS[self.spec.get("exc_kind", "plain")](f"{self.owner}.d{self.idx}.enter")
             raise self.enter_err
         if how.endswith("raise-cancelled"):
             self.enter_err = asyncio.CancelledError(f"{self.owner}.d{self.idx}.enter")
@@ -247,7 +324,7 @@ class Disposable:
         if how.startswith("gate"):
             await W.sched.gate(f"{self.owner}.d{self.idx}.exit")
         if how.endswith("raise"):
-            self.exit_err = DispErr(f"{self.owner}.d{self.idx}.exit")
+            self.exit_err = DISP_ERR_KINDS[self.spec.get("exc_kind", "plain")](f"{self.owner}.d{self.idx}.exit")
             raise self.exit_err
         if how.endswith("raise-base"):
             self.exit_err = DispBase(f"{self.owner}.d{self.idx}.exit")
@@ -298,6 +375,8 @@ class World:
         self.caught: dict[str, BaseException | None] = {}  # block name -> exception the harness caught around it
         self.raised: dict[str, BaseException] = {}  # block name -> exception object the body raised
         self.disposables: dict[str, list[Disposable]] = {}
+        self.disposable_views: list[dict[str, Any]] = []  # what resources with a block of their own in __aenter__ saw
+        self.pre_enter_view: dict[str, Any] = {}  # what was visible where the scope using them was entered
         self.tasks: dict[str, asyncio.Task[Any]] = {}
         self.task_owner: dict[str, str | None] = {}
         self.spawned_by_disposable: set[str] = set()
@@ -455,6 +534,8 @@ def _outcome(fn: Any) -> tuple[str, Any]:
     except BaseException as exc:  # noqa: BLE001
         return ("exc", type(exc).__name__)
     i = family.ident(r)
+    if i is None and type(r) is family.Box:
+        i = ("Box", int(r.v))  # the unspecialised generic: only ever handed over as an explicit default
     return ("val", i) if i is not None else ("alien", repr(r))
 
 
@@ -476,8 +557,13 @@ def take_probe(W: World, pid: Any, rng: random.Random | None = None) -> dict[str
             obs["state"][tname] = _outcome(lambda T=T: ctx.state(T))
         else:
             uid = W.fresh()
-            d = family.make(tname, uid)
-            obs["with_default"][tname] = (_outcome(lambda T=T, d=d: ctx.state(T, default=d)), uid)
+            # the explicit default is the caller's business: mostly an instance of the requested type, sometimes an instance of its
+            # base class / of the unspecialised generic / of an unrelated state type (what a type checker infers as the common base)
+            dname = tname
+            if rng is not None and rng.random() < 0.25:
+                dname = family.FOREIGN_DEFAULT[tname]
+            d = family.Box(v=uid) if dname == "Box" else family.make(dname, uid)
+            obs["with_default"][tname] = (_outcome(lambda T=T, d=d: ctx.state(T, default=d)), uid, dname)
     # metrics scope identity through a log line
     token = f"probe-{pid}-{W.fresh()}"
     n0 = len(W.capture.records)
@@ -705,6 +791,10 @@ def make_exc(kind: str, tag: str) -> BaseException:
     builtin = {"raise-keyerror": KeyError, "raise-timeout": TimeoutError, "raise-stopasync": StopAsyncIteration, "raise-lookup": LookupError, "raise-runtime": RuntimeError, "raise-assert": AssertionError}
     if kind in builtin:
         return builtin[kind](tag)
+    if kind in ("raise-frozen", "raise-unhashable", "raise-valueeq"):
+        return {"raise-frozen": BodyExcFrozen, "raise-unhashable": BodyExcUnhashable, "raise-valueeq": BodyExcValueEq}[kind](tag)
+    if kind == "raise-genexit":
+        return GeneratorExit(tag)  # what closing a generator throws into a block suspended at a yield
     if kind == "raise-unprintable":
         return Unprintable(tag)
     if kind == "raise-group":
@@ -784,6 +874,8 @@ async def run_block(W: World, block: dict[str, Any], rng: random.Random | None) 
         if block.get("disposables"):
             ds = [(AwaitableDisposable if spec.get("awaitable") else Disposable)(W, i, spec, name) for i, spec in enumerate(block["disposables"])]
             W.disposables[name] = ds
+            if any(spec.get("enter_block") for spec in block["disposables"]):
+                W.pre_enter_view[name] = (_outcome(lambda: ctx.state(family.R1)), _outcome(lambda: ctx.state(family.D2)))
             kw["disposables"] = ds
         if block.get("completion"):
             kw["completion"] = W.completion(name, block["completion"])
